@@ -128,7 +128,7 @@ func c04(c *an.Check) {
 			}},
 			{Name: "the recorded entry wraps the link that was reported", Holds: func(s *an.State, at ssa.Instruction) bool {
 				ne := 0
-				for _, b := range a.est.Blocks {
+				for _, b := range an.ScanBlocks(a.est) {
 					for _, ins := range b.Instrs {
 						if call, ok := ins.(*ssa.Call); ok {
 							if f, ok := call.Call.Value.(*ssa.Function); ok && f.Pkg == a.est.Pkg && f.Signature.Results().Len() == 2 && isNamedPtr(f.Signature.Results().At(0).Type(), "establishedLink") {
@@ -177,7 +177,7 @@ func c04(c *an.Check) {
 		okKey := false
 		if lit != nil {
 			st := p.NewState(lit)
-			for _, b := range lit.Blocks {
+			for _, b := range an.ScanBlocks(lit) {
 				for _, ins := range b.Instrs {
 					if lk, ok := ins.(*ssa.Lookup); ok && an.IsFieldLoad(lk.X, a.byPeerF) {
 						k := st.Canon(lk.Index)
@@ -258,7 +258,7 @@ func linkResolverIdentity(c *an.Check) {
 		return
 	}
 	okK, whyK := false, "the unique-list resolver construction was not found"
-	for _, b := range res.Blocks {
+	for _, b := range an.ScanBlocks(res) {
 		for _, ins := range b.Instrs {
 			call, ok := ins.(*ssa.Call)
 			if !ok {
@@ -291,7 +291,7 @@ func linkResolverIdentity(c *an.Check) {
 				fa, isFA := u.X.(*ssa.FieldAddr)
 				return isFA && fa.X == ssa.Value(fn.Params[pi]) && an.FieldOfAddr(fa) != nil && an.FieldOfAddr(fa).Name() == field
 			}
-			for _, kb := range keyFn.Blocks {
+			for _, kb := range an.ScanBlocks(keyFn) {
 				if ret, isRet := kb.Instrs[len(kb.Instrs)-1].(*ssa.Return); isRet {
 					kc, isCall := ret.Results[0].(*ssa.Call)
 					if !isCall || !kc.Call.IsInvoke() || kc.Call.Method.Name() != "GetUUID" || !fieldOfParam(kc.Call.Value, keyFn, 0, "lnk") {
@@ -299,7 +299,7 @@ func linkResolverIdentity(c *an.Check) {
 					}
 				}
 			}
-			for _, eb := range eqFn.Blocks {
+			for _, eb := range an.ScanBlocks(eqFn) {
 				if ret, isRet := eb.Instrs[len(eb.Instrs)-1].(*ssa.Return); isRet {
 					bo, isBO := ret.Results[0].(*ssa.BinOp)
 					if !isBO || bo.Op != token.EQL || !((bo.X == ssa.Value(eqFn.Params[1]) && bo.Y == ssa.Value(eqFn.Params[2])) || (bo.X == ssa.Value(eqFn.Params[2]) && bo.Y == ssa.Value(eqFn.Params[1]))) {
@@ -307,7 +307,7 @@ func linkResolverIdentity(c *an.Check) {
 					}
 				}
 			}
-			for _, xb := range xfFn.Blocks {
+			for _, xb := range an.ScanBlocks(xfFn) {
 				if ret, isRet := xb.Instrs[len(xb.Instrs)-1].(*ssa.Return); isRet {
 					v := ret.Results[0]
 					if mi, isMI := v.(*ssa.MakeInterface); isMI {
@@ -336,7 +336,7 @@ func c06(c *an.Check) {
 		c.Undecided("MUSTCALL", "scrc.Crc64 is deterministic", nil, "unresolved anchor")
 	} else {
 		reset, sum := false, false
-		for _, b := range crc.Blocks {
+		for _, b := range an.ScanBlocks(crc) {
 			for _, ins := range b.Instrs {
 				var cc *ssa.CallCommon
 				switch x := ins.(type) {
@@ -357,7 +357,7 @@ func c06(c *an.Check) {
 			}
 		}
 		fresh := false
-		for _, b := range crc.Blocks {
+		for _, b := range an.ScanBlocks(crc) {
 			for _, ins := range b.Instrs {
 				if call, ok := ins.(*ssa.Call); ok {
 					if f := call.Call.StaticCallee(); f != nil && f.Pkg != nil && f.Pkg.Pkg.Path() == "hash/crc64" && (f.Name() == "New" || f.Name() == "Checksum") {
@@ -501,7 +501,7 @@ func c06(c *an.Check) {
 		}})
 	// the per-peer removal compares entries by identity with the flushed entry
 	okId := false
-	for _, b := range a.flush.Blocks {
+	for _, b := range an.ScanBlocks(a.flush) {
 		for _, ins := range b.Instrs {
 			if bo, ok := ins.(*ssa.BinOp); ok && bo.Op.String() == "==" {
 				stf := p.NewState(a.flush)
@@ -552,7 +552,7 @@ func c06(c *an.Check) {
 			return ok && an.IsFieldLoad(mu.Map, a.linksF)
 		},
 		Reqs: []an.Req{{Name: "no entry for this uuid, or the existing entry holds a different link (which was flushed first)", Holds: func(s *an.State, at ssa.Instruction) bool {
-			for _, b := range a.est.Blocks {
+			for _, b := range an.ScanBlocks(a.est) {
 				for _, ins := range b.Instrs {
 					lk, ok := ins.(*ssa.Lookup)
 					if !ok || !lk.CommaOk || !an.IsFieldLoad(lk.X, a.linksF) {
@@ -582,7 +582,7 @@ func c06(c *an.Check) {
 		if f.Signature.Recv() == nil || !isNamedPtr(f.Signature.Recv().Type(), "Transport") {
 			return false
 		}
-		for _, b := range f.Blocks {
+		for _, b := range an.ScanBlocks(f) {
 			for _, ins := range b.Instrs {
 				if isInvokeOf(ins, "", "HandleLinkLost") {
 					return true
@@ -614,7 +614,7 @@ func c06(c *an.Check) {
 	// every HandleLinkLost call site in the repository, for the record
 	n := 0
 	for _, fn := range p.AllRepoFuncs() {
-		for _, b := range fn.Blocks {
+		for _, b := range an.ScanBlocks(fn) {
 			for _, ins := range b.Instrs {
 				if ci, ok := ins.(ssa.CallInstruction); ok && ci.Common().IsInvoke() && ci.Common().Method.Name() == "HandleLinkLost" {
 					n++
@@ -735,7 +735,7 @@ func c05(c *an.Check) {
 	if a != nil {
 		okR := false
 		for _, g := range an.WithClosures(a.flush) {
-			for _, b := range g.Blocks {
+			for _, b := range an.ScanBlocks(g) {
 				for _, ins := range b.Instrs {
 					if call, ok := ins.(*ssa.Call); ok {
 						if fo := an.CallObj(call.Common()); fo != nil && fo.Name() == "RestartAllRoutines" {
@@ -812,7 +812,7 @@ func c05(c *an.Check) {
 			}
 			g := mc.Fn.(*ssa.Function)
 			del, ident := false, false
-			for _, b := range g.Blocks {
+			for _, b := range an.ScanBlocks(g) {
 				for _, ins := range b.Instrs {
 					if call, ok := ins.(*ssa.Call); ok && an.BuiltinName(call) == "delete" && an.IsFieldLoad(call.Call.Args[0], dialersF) {
 						del = true
